@@ -338,6 +338,12 @@ def g1b_reader_scratch(c1: int, c2: int, c3: int, c4: int, level: int, s1: int, 
     pre: cp_ok(s1) and cp_ok(s2)
     post: _
     """
+    return reader_scratch_body(c1, c2, c3, c4, level, s1, s2, oi0, endnone)
+
+
+def reader_scratch_body(c1, c2, c3, c4, level, s1, s2, oi0, endnone):
+    # plain helper without a contract (shared with C05-F4): CrossHair enforces the contracts of contracted
+    # callees and silently ignores paths on which a callee's post-condition fails
     from mistletoe import block_token as bt, block_tokenizer as btk
     name = P('reader')
     T = getattr(bt, name)
